@@ -269,6 +269,7 @@ func runJournalImpl(in map[string]any) journalRun {
 	feeds := ga(in, "feeds")
 	windows := ga(in, "windows")
 	var jr journalRun
+	jr.canon = []any{}
 	for i := range feeds {
 		var row []*journal.Journal
 		var crow []any
